@@ -145,7 +145,10 @@ Definition collection_cmps : list cmp :=
 Definition page_cmps : list cmp := [CItem F_PartOf; CItem F_Next; CItem F_Prev].
 Definition page_cmps_pinned : list cmp :=
   [CItem F_PartOf; CItem F_Current; CItem F_First; CItem F_Last; CItem F_Next; CItem F_Prev].
-Definition ordered_cmps : list cmp := [COrdItems].
+(* (the members are compared by the collection comparison the method delegates to - the ordered items are the items of
+   the collection view; the pinned tree compared them a second time, doubling the work per level of nested collections) *)
+Definition ordered_cmps : list cmp := [].
+Definition ordered_cmps_pinned : list cmp := [COrdItems].
 Definition link_cmps : list cmp :=
   [CNlv F_Name; CIri F_Rel; CStr F_MediaType; CUint F_Height; CUint F_Width; CItem F_Preview; CIri F_Href;
    CStr F_HrefLang].
